@@ -7,7 +7,11 @@ import (
 	"github.com/q191201771/lal/pkg/rtmp"
 	"github.com/q191201771/lal/pkg/rtsp"
 	vkit "github.com/q191201771/lal/pkg/zzvkit"
+	vrt "github.com/q191201771/lal/pkg/zzvrt"
 )
+
+// kitSymbolicClock is set by harnesses whose property depends on time (relay pull windows).
+var kitSymbolicClock = false
 
 // ---- G-kit: a Group with real session objects over fake connections (no goroutines, sockets or files) ----
 
@@ -29,6 +33,9 @@ func kitConfig() *Config {
 }
 
 func kitGroup(c *Config) (*Group, *kitGroupObserver) {
+	if !kitSymbolicClock {
+		vrt.ConcreteClock(1700000000000000000, 1000000)
+	}
 	// synchronous writes: no writer goroutine inside the naza connection
 	httpflv.SubSessionWriteChanSize = 0
 	httpts.SubSessionWriteChanSize = 0
